@@ -1,6 +1,11 @@
 // C11/C12 correspondence harness: the real ygm::container::map / multimap / set / multiset driven by a
-// scenario file.   args:  map|multimap|set|multiset  <kinds>  <scenario file>
+// scenario file.   args:  map|multimap|set|multiset  <kinds>  <scenario file>  [variant]
 //   kinds: key kind + value kind, 's' = std::string, 'i' = int64_t  (sets: key kind only)
+//   variant: 'd' default template arguments (hash_partitioner, std::less)
+//            'g' Compare = std::greater<Key>
+//            'p' Compare = alt_compare (a different strict total order) and Partitioner = alt_partitioner
+//   The comparator only orders the local std::multimap / std::multiset and the partitioner only picks the owner:
+//   the semantics (and the Lean model) are the same for every variant.
 // Scenario directives (every rank reads the whole file, executes the directives in order):
 //   keys =k ...            print `O =k <owner>` for every listed key
 //   dv =x =y               default values of containers 0 and 1 (maps; must be the first directive)
@@ -70,6 +75,23 @@ template <> struct vsem<i64> {
   static V red(int rop, const V& x, const V& y) { return rop == 0 ? (2 * x + y) % MOD : rop == 1 ? (x < y ? y : x) : (x + y) % MOD; }
 };
 
+// a strict total order different from operator< and from operator>: strings by (length, text), integers by (residue mod 7, value)
+template <class K> struct alt_compare;
+template <> struct alt_compare<std::string> {
+  bool operator()(const std::string& a, const std::string& b) const { return a.size() != b.size() ? a.size() < b.size() : a < b; }
+};
+template <> struct alt_compare<i64> {
+  bool operator()(const i64& a, const i64& b) const { i64 ra = ((a % 7) + 7) % 7, rb = ((b % 7) + 7) % 7; return ra != rb ? ra < rb : a < b; }
+};
+// a partitioner different from hash_partitioner
+template <class K> struct alt_partitioner {
+  std::pair<size_t, size_t> operator()(const K& k, size_t nranks, size_t nbanks) const {
+    size_t h = std::hash<K>{}(k) * 0x9e3779b97f4a7c15ULL + 12345;
+    h ^= h >> 29;
+    return std::make_pair((h / 3) % nranks, (h / nranks) % nbanks);
+  }
+};
+
 template <class V, int ROP> struct reducer { V operator()(const V& x, const V& y) const { return vsem<V>::red(ROP, x, y); } };
 
 template <class K, class V> struct visitor {
@@ -127,8 +149,9 @@ static std::vector<std::string> read_lines(const char* path) {
   std::vector<std::string> v; std::ifstream f(path); std::string l; while (std::getline(f, l)) v.push_back(l); return v;
 }
 
-template <class K, class V, bool MULTI> int run_map(ygm::comm& world, const std::vector<std::string>& lines) {
-  using C = typename std::conditional<MULTI, ygm::container::multimap<K, V>, ygm::container::map<K, V>>::type;
+template <class K, class V, bool MULTI, class Part = ygm::container::detail::hash_partitioner<K>, class Cmp = std::less<K>>
+int run_map(ygm::comm& world, const std::vector<std::string>& lines) {
+  using C = typename std::conditional<MULTI, ygm::container::multimap<K, V, Part, Cmp>, ygm::container::map<K, V, Part, Cmp>>::type;
   V dv0 = V(), dv1 = V();
   if (!lines.empty()) { auto w = toks(lines[0]); if (w.size() == 3 && w[0] == "dv") { dv0 = codec<V>::dec(w[1]); dv1 = codec<V>::dec(w[2]); } }
   C  c0(world, dv0), c1(world, dv1);
@@ -189,24 +212,25 @@ template <class K, class V, bool MULTI> int run_map(ygm::comm& world, const std:
 // ---------------------------------------------------------------------------------------- sets
 template <class S> struct setreg { static S*& at(int c) { static S* p[2] = {nullptr, nullptr}; return p[c]; } };
 
-template <class K, class S> struct exe_visitor {
+template <class K, class S, bool MULTI> struct exe_visitor {
   void operator()(const K& key, const int& c, const int& vis, const K& arg) {
     hc::out("cb " + std::to_string(c) + " x " + std::to_string(vis) + " " + E(key) + " " + E(arg));
     K d = codec<K>::dk(key);
-    if constexpr (!std::is_same<S, ygm::container::multiset<K>>::value) {
+    if constexpr (!MULTI) {
       S* s = setreg<S>::at(c);
       switch (vis) {
         case 2: hc::out("em " + std::to_string(c) + " ins " + E(d)); s->async_insert(d); break;
         case 3: hc::out("em " + std::to_string(c) + " ieim " + E(d) + " 0 " + E(arg));
-                s->async_insert_exe_if_missing(d, exe_visitor<K, S>(), c, 0, arg); break;
+                s->async_insert_exe_if_missing(d, exe_visitor<K, S, MULTI>(), c, 0, arg); break;
         default: break;
       }
     }
   }
 };
 
-template <class K, bool MULTI> int run_set(ygm::comm& world, const std::vector<std::string>& lines) {
-  using S = typename std::conditional<MULTI, ygm::container::multiset<K>, ygm::container::set<K>>::type;
+template <class K, bool MULTI, class Part = ygm::container::detail::hash_partitioner<K>, class Cmp = std::less<K>>
+int run_set(ygm::comm& world, const std::vector<std::string>& lines) {
+  using S = typename std::conditional<MULTI, ygm::container::multiset<K, Part, Cmp>, ygm::container::set<K, Part, Cmp>>::type;
   S  c0(world), c1(world);
   S* cs[2] = {&c0, &c1};
   setreg<S>::at(0) = &c0; setreg<S>::at(1) = &c1;
@@ -222,10 +246,10 @@ template <class K, bool MULTI> int run_set(ygm::comm& world, const std::vector<s
       else if (op == "era") s.async_erase(k);
       else if constexpr (!MULTI) {
         int vis = atoi(w[5].c_str()); K a = codec<K>::dec(w[6]);
-        if (op == "ieim") s.async_insert_exe_if_missing(k, exe_visitor<K, S>(), c, vis, a);
-        else if (op == "ieic") s.async_insert_exe_if_contains(k, exe_visitor<K, S>(), c, vis, a);
-        else if (op == "eim") s.async_exe_if_missing(k, exe_visitor<K, S>(), c, vis, a);
-        else if (op == "eic") s.async_exe_if_contains(k, exe_visitor<K, S>(), c, vis, a);
+        if (op == "ieim") s.async_insert_exe_if_missing(k, exe_visitor<K, S, MULTI>(), c, vis, a);
+        else if (op == "ieic") s.async_insert_exe_if_contains(k, exe_visitor<K, S, MULTI>(), c, vis, a);
+        else if (op == "eim") s.async_exe_if_missing(k, exe_visitor<K, S, MULTI>(), c, vis, a);
+        else if (op == "eic") s.async_exe_if_contains(k, exe_visitor<K, S, MULTI>(), c, vis, a);
         else { hc::out("bad-op " + lines[li]); return 3; }
       } else { hc::out("bad-op " + lines[li]); return 3; }
       continue;
@@ -265,8 +289,33 @@ extern "C" int sim_main(int argc, char** argv) {
   hc::open_out(world.rank());
   g_log_pack = world.size() == 1;
   if (argc < 4) { hc::out("usage"); return 2; }
-  std::string what = argv[1], kinds = argv[2];
+  std::string what = argv[1], kinds = argv[2], variant = argc > 4 ? argv[4] : "d";
   auto lines = read_lines(argv[3]);
+  using str = std::string;
+  using hp_s = ygm::container::detail::hash_partitioner<str>; using hp_i = ygm::container::detail::hash_partitioner<i64>;
+  if (variant == "g") {
+    bool multi = what == "multimap" || what == "multiset";
+    if (what == "map" || what == "multimap") {
+      if (kinds == "ss") return multi ? run_map<str, str, true, hp_s, std::greater<str>>(world, lines) : run_map<str, str, false, hp_s, std::greater<str>>(world, lines);
+      if (kinds == "is") return multi ? run_map<i64, str, true, hp_i, std::greater<i64>>(world, lines) : run_map<i64, str, false, hp_i, std::greater<i64>>(world, lines);
+      if (kinds == "si") return multi ? run_map<str, i64, true, hp_s, std::greater<str>>(world, lines) : run_map<str, i64, false, hp_s, std::greater<str>>(world, lines);
+    } else {
+      if (kinds == "s") return multi ? run_set<str, true, hp_s, std::greater<str>>(world, lines) : run_set<str, false, hp_s, std::greater<str>>(world, lines);
+      if (kinds == "i") return multi ? run_set<i64, true, hp_i, std::greater<i64>>(world, lines) : run_set<i64, false, hp_i, std::greater<i64>>(world, lines);
+    }
+    hc::out("bad-kinds"); return 2;
+  }
+  if (variant == "p") {
+    bool multi = what == "multimap" || what == "multiset";
+    if (what == "map" || what == "multimap") {
+      if (kinds == "ss") return multi ? run_map<str, str, true, alt_partitioner<str>, alt_compare<str>>(world, lines) : run_map<str, str, false, alt_partitioner<str>, alt_compare<str>>(world, lines);
+      if (kinds == "is") return multi ? run_map<i64, str, true, alt_partitioner<i64>, alt_compare<i64>>(world, lines) : run_map<i64, str, false, alt_partitioner<i64>, alt_compare<i64>>(world, lines);
+    } else {
+      if (kinds == "s") return multi ? run_set<str, true, alt_partitioner<str>, alt_compare<str>>(world, lines) : run_set<str, false, alt_partitioner<str>, alt_compare<str>>(world, lines);
+      if (kinds == "i") return multi ? run_set<i64, true, alt_partitioner<i64>, alt_compare<i64>>(world, lines) : run_set<i64, false, alt_partitioner<i64>, alt_compare<i64>>(world, lines);
+    }
+    hc::out("bad-kinds"); return 2;
+  }
   if (what == "map" || what == "multimap") {
     bool multi = what == "multimap";
     if (kinds == "ss") return multi ? run_map<std::string, std::string, true>(world, lines) : run_map<std::string, std::string, false>(world, lines);
